@@ -7,11 +7,15 @@
   when linking meets a label that is external on one side and defined on the other, the label becomes defined, exactly
   the relocation entries of that label are consumed and each is turned into a patch of the defining address; a patch
   inside a block sets exactly that word.
-  Not proved: that every `.fill EXT` statement of a program owns an entry (the converse direction) and the composition
-  over a whole link; both are checked by the correspondence check's oracle on generated programs.
+  Proved end to end for the first half of the property: a program with an `.external` declaration of a name not bound
+  earlier assembles (with or without debug symbols) to an object file whose loading is refused
+  (`unresolved_external_refuses_load`).
+  Not proved: that every `.fill EXT` statement of a program owns a relocation entry at its address (the converse
+  direction) and the composition over a whole link; both are checked by the oracle on generated programs.
 -/
 import Lc3V.Model.Asm
 import Lc3V.Props.C29
+import Lc3V.Lemmas.TwoPass
 set_option linter.unusedSimpArgs false
 namespace Lc3V.C21
 open Lc3V
@@ -87,8 +91,90 @@ theorem patch_sets_word (start : Nat) (block : List (Option W)) (addr v : W) (h1
   unfold patchWord
   simp [h1, h2]
 
+/-- an `.external` declaration of a name not bound before makes the name external in the label table after that statement -/
+theorem external_declared (st st' : P1) (stmt : Stmt) (l : Label) (h : pass1Step st stmt = .ok st')
+    (hn : stmt.nucleus = .directive (.external l)) (hl : stmt.labels = [])
+    (hfresh : lookupKey st.labels (upperS l.name) = none) :
+    ∃ d, lookupKey st'.labels (upperS l.name) = some d ∧ d.ext = true := by
+  unfold pass1Step at h
+  have h1 : p1Labels st stmt = .ok st.labels := by unfold p1Labels; simp [hl]
+  rw [h1] at h
+  dsimp only at h
+  have h2 : p1Special st stmt st.labels = .ok (st.cursor, st.labels ++ [(upperS l.name, ⟨0, l.start, true⟩)], st.rel) := by
+    unfold p1Special
+    simp only [hn, addLabel, hfresh]
+  rw [h2] at h
+  dsimp only at h
+  have hfin : st'.labels = st.labels ++ [(upperS l.name, ⟨0, l.start, true⟩)] := by
+    unfold p1Advance at h
+    split at h
+    · cases h; rfl
+    · dsimp only at h; split at h
+      · cases h
+      · cases h; rfl
+  rw [hfin]
+  exact ⟨_, C01.lookupKey_append_new _ _ _ hfresh, rfl⟩
+
+/-- **never silently unresolved**: a program that declares a name external (not bound earlier in the file) assembles — with
+    or without debug symbols — to an object file whose loading is refused with `UnresolvedExternal`, the machine unchanged -/
+theorem unresolved_external_refuses_load (pre post : List Stmt) (stmt : Stmt) (l : Label) (src : Option (List Char)) (o : ObjFile)
+    (ha : assemble (pre ++ stmt :: post) src = .ok o)
+    (hn : stmt.nucleus = .directive (.external l)) (hl : stmt.labels = [])
+    (hfresh : ∀ p1, pre.foldlM pass1Step (p1Init src) = .ok p1 → lookupKey p1.labels (upperS l.name) = none)
+    (s : Sim) (blocks : List (W × List (Option W))) :
+    o.externalSymbols ≠ [] ∧ s.loadObj blocks (!o.externalSymbols.isEmpty) = (.error .unresolvedExternal, s) := by
+  unfold assemble at ha
+  split at ha
+  · cases ha
+  · rename_i t ht
+    -- pass 1: the name is external in the final table
+    have hext : ∃ d, lookupKey t.labels (upperS l.name) = some d ∧ d.ext = true := by
+      unfold pass1 at ht
+      split at ht
+      · cases ht
+      · rename_i st hfold
+        obtain ⟨p1, hpre, hrest⟩ := foldlM_append_ok pass1Step pre (stmt :: post) (p1Init src) st hfold
+        rw [List.foldlM_cons] at hrest
+        cases hs : pass1Step p1 stmt with
+        | error e => rw [hs] at hrest; cases hrest
+        | ok p1s =>
+          rw [hs] at hrest
+          obtain ⟨d, hd, he⟩ := external_declared p1 p1s stmt l hs hn hl (hfresh p1 hpre)
+          have hkeep := pass1_fold_keeps post p1s st hrest
+          unfold p1Finish at ht
+          split at ht
+          · cases ht
+          · cases ht; exact ⟨d, hkeep _ _ hd, he⟩
+    obtain ⟨d, hd, he⟩ := hext
+    have hmem := C23mem t.labels _ d hd
+    have hany : t.labels.any (fun e => e.2.ext) = true := List.any_eq_true.mpr ⟨_, hmem, he⟩
+    have hsym := externals_keep_symbol_table _ t src.isSome o ha hany
+    have hne := external_symbols_nonempty o t hsym _ d hmem he
+    refine ⟨hne, ?_⟩
+    have : (!o.externalSymbols.isEmpty) = true := by
+      cases hx : o.externalSymbols with
+      | nil => exact absurd hx hne
+      | cons a b => rfl
+    rw [this]
+    exact load_refused s blocks
+where
+  C23mem (m : List (Key × SymData)) (k : Key) (d : SymData) (h : lookupKey m k = some d) : (k, d) ∈ m := by
+    unfold lookupKey at h
+    cases hf : List.find? (fun e => e.1 == k) m with
+    | none => rw [hf] at h; cases h
+    | some x =>
+      rw [hf] at h
+      have h1 := List.find?_some hf
+      have h2 := List.mem_of_find?_eq_some hf
+      simp only [Option.map_some, Option.some.injEq] at h
+      have : x.1 = k := by simpa using h1
+      obtain ⟨xk, xd⟩ := x
+      simp only at this h
+      subst this; subst h
+      exact h2
+
 def obligations : List Lean.Name :=
   [``rel_entries_are_external, ``fill_records_candidate, ``externals_keep_symbol_table, ``external_symbols_nonempty,
-   ``load_refused, ``link_resolves, ``patch_sets_word]
+   ``load_refused, ``link_resolves, ``patch_sets_word, ``external_declared, ``unresolved_external_refuses_load]
 
 end Lc3V.C21
